@@ -159,6 +159,40 @@ abbrev K20 (c : Cfg) (s : S) : Prop := c.oneway = true → liveCount s.streams =
 /-- K21: a one-way request arms no timer -/
 abbrev K21 (c : Cfg) (s : S) : Prop := c.oneway = true → s.perTry = false ∧ s.global = false
 
+/-- K22: in a two-way request every live client stream is counted by the pool -/
+abbrev K22 (c : Cfg) (s : S) : Prop := c.oneway = false → s.streams.all (fun st => !st.live || st.counted) = true
+/-- K23: a pending upstream reset means the client stream is gone; so does the retry phase -/
+abbrev K23 (s : S) : Prop := s.cleaned = false → (s.upReset = true ∨ s.phase = .Retry) → liveCount s.streams = 0
+
+/-- K24: while a retry is still possible the global timer is armed or has expired -/
+abbrev K24 (c : Cfg) (s : S) : Prop := s.cleaned = false → c.oneway = false → s.reqSent = true → s.rs.isSome = true →
+  s.global = true ∨ s.globalExpired = true
+/-- K25: while a retry is still possible no re-entry budget was used -/
+abbrev K25 (c : Cfg) (s : S) : Prop := s.cleaned = false → c.oneway = false → s.rs.isSome = true → s.pass = 0
+
+/-- K26: in the retry phase only the global timer can have reset the upstream -/
+abbrev K26 (s : S) : Prop := s.cleaned = false → s.phase = .Retry →
+  s.perTry = false ∧ (s.upReset = true → s.globalExpired = true)
+/-- K27: while forwarding, the CAS word is taken either by a timeout (then a reset is pending) or by an accepted
+response (then the response is stored and its client stream is gone) -/
+abbrev K27 (s : S) : Prop := s.cleaned = false → fwdPhase s.phase = true → s.urr = true →
+  s.upReset = true ∨ (s.resp.isSome = true ∧ liveCount s.streams = 0)
+/-- K28: while forwarding, a wake-up is never spurious -/
+abbrev K28 (s : S) : Prop := s.cleaned = false → fwdPhase s.phase = true → s.notify = true →
+  s.urr = true ∨ s.upReset = true ∨ s.downReset = true
+
+/-- K29: a two-way request is completely sent upstream before the worker waits -/
+abbrev K29 (c : Cfg) (s : S) : Prop := s.cleaned = false → c.oneway = false → s.pass = 0 →
+  (s.phase = .DownRecvData → s.reqSent = true ∨ c.hasData = true ∨ c.hasTrailers = true) ∧
+  (s.phase = .DownRecvTrailer → s.reqSent = true ∨ c.hasTrailers = true) ∧
+  (s.phase = .Oneway → s.reqSent = true)
+/-- K30: nothing was sent upstream before the first `receiveHeaders` -/
+abbrev K30 (s : S) : Prop := s.cleaned = false → (s.phase = .DownFilterAfterChooseHost ∨ s.phase = .DownRecvHeader) →
+  s.streams = [] ∧ s.reqSent = false ∧ s.perTry = false ∧ s.global = false ∧ s.urr = false ∧ s.upReset = false ∧
+  s.globalExpired = false
+/-- K31: a retry state only exists together with an upstream request -/
+abbrev K31 (s : S) : Prop := s.rs.isSome = true → s.up.isSome = true
+
 /-- the inductive invariant -/
 structure Inv (c : Cfg) (ar aq : Nat) (s : S) : Prop where
   k0 : K0 s
@@ -183,12 +217,22 @@ structure Inv (c : Cfg) (ar aq : Nat) (s : S) : Prop where
   k19 : K19 s
   k20 : K20 c s
   k21 : K21 c s
+  k22 : K22 c s
+  k23 : K23 s
+  k24 : K24 c s
+  k25 : K25 c s
+  k26 : K26 s
+  k27 : K27 s
+  k28 : K28 s
+  k29 : K29 c s
+  k30 : K30 s
+  k31 : K31 s
 
 /-- executable form for the model checker: the clauses in order -/
 def invList (c : Cfg) (ar aq : Nat) (s : S) : List Bool :=
   [ decide (K0 s), decide (K1 s), decide (K2 s), decide (K3 s), decide (K4 s), decide (K5 s), decide (K6 s), decide (K7 s),
     decide (K8 s), decide (K9 c ar s), decide (K10 c aq s), decide (K11 s), decide (K12 s), decide (K13 s), decide (K14 s),
-    decide (K15 s), decide (K16 s), decide (K17 s), decide (K18 c s), decide (K19 s), decide (K20 c s), decide (K21 c s) ]
+    decide (K15 s), decide (K16 s), decide (K17 s), decide (K18 c s), decide (K19 s), decide (K20 c s), decide (K21 c s), decide (K22 c s), decide (K23 s), decide (K24 c s), decide (K25 c s), decide (K26 s), decide (K27 s), decide (K28 s), decide (K29 c s), decide (K30 s), decide (K31 s) ]
 
 def inv (c : Cfg) (ar aq : Nat) (s : S) : Bool := (invList c ar aq s).all id
 
